@@ -49,7 +49,7 @@ var cxKeys = [][]byte{
 
 // cxRangeClosureFixed: set to true once CompactRange closes its selection under key-range overlap (see the suggested
 // repair of KF-C12-RANGE); partial ranges then belong to the bulk of the cases.
-const cxRangeClosureFixed = false
+const cxRangeClosureFixed = true
 
 type cxGen struct {
 	g       *gen
